@@ -65,7 +65,9 @@ class Writer:
       fieldnamemsg = "Field: {}\n".format(fieldname) if fieldname else ""
       contentmsg = "Content: {}\n".format(repr(obj))
       datatypemsg = "Datatype: {}\n".format(datatype)
-      raise err.__class__(
+      errclass = err.__class__ if isinstance(err, gfapy.Error) \
+                               else gfapy.FormatError
+      raise errclass(
             fieldnamemsg +
             datatypemsg +
             contentmsg +
